@@ -40,7 +40,7 @@ let txt (toks : string list) : string =
       | [] -> acc
       | _ -> failwith "txt: odd entry tokens" in
     let t = { t_title = parse_b title; t_entries = entries [] rest; t_dirty = (int_of_string n > 0) } in
-    (match TextFormat.serialize Checked fmt endian t with
+    (match TextFormat.serialize name_key Checked fmt endian t with
      | Err e -> "ser=" ^ terr e
      | Panic _ -> "ser=PANIC"
      | Ok b ->
@@ -58,7 +58,7 @@ let report fmt endian (trace : (n list * (n list * n list) list) outcome) (full 
   | Ok (title, es), Ok t ->
     let ess = List.map (fun (k, v) -> show_b k ^ "=" ^ show_msg fmt v) es in
     let reser =
-      (match TextFormat.serialize Checked fmt endian t with
+      (match TextFormat.serialize name_key Checked fmt endian t with
        | Ok b -> "ok:" ^ show_b b
        | Err e -> terr e
        | Panic _ -> "PANIC") in
